@@ -177,6 +177,91 @@ def rule_O4_spin_before_busy_update(mod, rep):
         rep.stats["O4.%s.update_calls" % f.name] = len(upd)
 
 
+def rule_O4c_fresh_rep(mod, rep):
+    rep.rule("O4c", "in p?gstrf_panel_bmod the supernode representative stored into segrep[] for a busy supernode is re-read (xsup_end[ksupno]) after every wait on a "
+             "further column of the same supernode: with the exit edge 'supno[waited column] != ksupno' removed, no path leads from that read through a wait to the "
+             "segrep store without executing the read again", floor=4)
+    for prec, f in fam(mod, "p?gstrf_panel_bmod"):
+        ks = f.pindex("segrep")
+        # uses: stores into segrep[] whose value comes from an xsup_end load, in the pipeline part (value's supernode index is a supno[] load of a busy column)
+        n = 0
+        for U in f.insts():
+            if U.op != "store" or (("A", ks), ("i",)) not in f.addr_paths(U):
+                continue
+            Ks = [x for x in expr_insts(f, U.ops[0], through_loads=False) if x.op == "load" and addr_is_elem_of(f, x, "xsup_end")]
+            if not Ks:
+                continue
+            K = Ks[0]
+            ksup = gep_index(f, K.ops[0])
+            if ksup is None or ksup[0] != "v" or f.inst[ksup[1]].op != "load" or not addr_is_elem_of(f, f.inst[ksup[1]], "supno"):
+                continue
+            # only the pipeline site: ksupno = supno[k] with k from bcol/etree
+            kidx = gep_index(f, f.inst[ksup[1]].ops[0])
+            kb = f.pindex("bcol"); ke = f.pindex("etree")
+            if kidx is None or not any(p == (("A", kb),) or p == (("A", ke), ("i",), ("*",)) for p in f.paths(kidx)):
+                continue
+            n += 1
+            waits = [c for c in f.calls("await")] + [l for l in f.insts() if l.op == "load" and l.vol and addr_is_elem_of(f, l, "spin_locks")]
+            removed = set()
+            for C in f.insts():
+                if C.op == "icmp" and C.pred in ("eq", "ne"):
+                    a, b = strip_casts(f, C.ops[0]), strip_casts(f, C.ops[1])
+                    for u, v in ((a, b), (b, a)):
+                        if same_val(v, ksup) and u[0] == "v" and f.inst[u[1]].op == "load" and addr_is_elem_of(f, f.inst[u[1]], "supno"):
+                            for bid, eq_t, ne_t in eq_edge(f, C):
+                                removed.add((bid, ne_t))
+            bad = None
+            r1 = f.reach([K], stop=lambda x: x.i == K.i, dead_edges=removed)
+            for W in waits:
+                if W.i in r1:
+                    r2 = f.reach([W], stop=lambda x: x.i == K.i, dead_edges=removed)
+                    if U.i in r2:
+                        bad = W
+            rep.check(bad is None and bool(removed), "O4c", "%s#busy-rep%d" % (f.name, n), "SUPER_REP of a busy supernode is re-read after each wait inside the supernode",
+                      "the representative column of a busy supernode is read at %s, then a further column of the same supernode is awaited at %s, and the stale "
+                      "value is used at %s (the supernode may have grown meanwhile)" % (K.loc, bad.loc if bad else "?", U.loc), U.loc, f.name)
+
+
+def rule_O9b_relaxed_marking(mod, rep):
+    rep.rule("O9b", "pxgstrf_mark_busy_descends, relaxed-supernode branch: every column of the busy relaxed supernode is marked: a loop stores jcol into "
+             "lbusy[k] for k = *bcol, *bcol+1, ... < *bcol + pan_status[*bcol].size (unit step)", floor=1)
+    f = mod.funcs.get("pxgstrf_mark_busy_descends")
+    if f is None:
+        return
+    from .threads import loop_of, loop_bound
+    kb = f.pindex("bcol"); kl = f.pindex("lbusy"); kj = f.pindex("jcol")
+    ok = False
+    why = "no unit-step marking loop over the relaxed supernode's columns"
+    for s in f.insts():
+        if s.op != "store" or (("A", kl), ("i",)) not in f.addr_paths(s):
+            continue
+        if not (strip_casts(f, s.ops[0]) == ["a", kj]):
+            continue
+        lp = loop_of(f, s)
+        if not lp:
+            continue
+        lb = loop_bound(f, *lp)
+        if not lb:
+            continue
+        ph, pred, bound = lb
+        if not same_val(gep_index(f, s.ops[1]), ["v", ph.i]):
+            continue
+        # start = *bcol ; step = +1 ; bound = *bcol + size
+        starts = [strip_casts(f, o) for o in ph.ops]
+        st_ok = any(o[0] == "v" and (("A", kb), ("*",)) in f.paths(o) and f.inst[o[1]].op == "load" for o in starts)
+        step_ok = any(o[0] == "v" and f.inst[o[1]].op == "add" and any(is_const(x, 1) for x in f.inst[o[1]].ops) and any(same_val(strip_casts(f, x), ["v", ph.i]) for x in f.inst[o[1]].ops) for o in starts)
+        bv = strip_casts(f, bound)
+        b_ok = False
+        if bv[0] == "v" and f.inst[bv[1]].op == "add":
+            lds = [x for x in expr_insts(f, bv) if x.op == "load"]
+            b_ok = any(addr_has_field(f, x, "size", "pan_status_t") for x in lds) and any((("A", kb),) in f.addr_paths(x) for x in lds)
+        if st_ok and step_ok and b_ok and pred == "slt":
+            ok = True
+        elif st_ok and b_ok:
+            why = "marking loop over the relaxed supernode does not advance by one column (start=%s step+1=%s bound=%s)" % (st_ok, step_ok, b_ok)
+    rep.check(ok, "O9b", "pxgstrf_mark_busy_descends#relaxed-marking", "all columns bcol..bcol+size-1 of the busy relaxed supernode are marked busy", why, f.file, f.name)
+
+
 def rule_O5_volatile(mod, rep):
     rep.rule("O5", "every load/store of pxgstrf_shared_t.spin_locks[] and .tasks_remain, and the load in await(), is volatile", floor=20)
     n = 0
